@@ -347,6 +347,7 @@ func checkC17(p *Program, r *Report) {
 			"the element width of this per-node array is computed from key content (labels "+wf.labels.String()+"): lengthening keys without moving their branch points (a long common prefix, one long branch-free run) changes the cost of every node's entry, so the size of a filter-mode index depends on key length")
 	}
 	checkBigNodeThreshold(p, r)
+	checkShiftInvariant(p, r)
 	checkBuildStateless(p, r, "C17.build-stateless")
 	r.Rule("C17.sections", "E2", "whether a per-node section of the message is built does not depend on key content", 4)
 	for _, wf := range bf.sortedWire() {
